@@ -47,9 +47,21 @@ def decorate(n, gates, env):
     return prog
 
 
-def build_qc(n, prog):
-    from qiskit import QuantumCircuit
-    qc = QuantumCircuit(n)
+class ConversionTimeout(Exception):
+    pass
+
+
+def _alarm(signum, frame):
+    raise ConversionTimeout()
+
+
+def build_qc(n, prog, split=False):
+    from qiskit import QuantumCircuit, QuantumRegister
+    if split and n >= 2:
+        # the same circuit declared over two registers: a qubit's index inside its register is not its position
+        qc = QuantumCircuit(QuantumRegister(1, "a"), QuantumRegister(n - 1, "b"))
+    else:
+        qc = QuantumCircuit(n)
     for g in prog:
         if g[0] in ("ry", "rz", "rx", "p"):
             getattr(qc, g[0])(g[1], g[2])
@@ -66,16 +78,22 @@ def operator_big_endian(qc):
     return u[np.ix_(rev, rev)]
 
 
-def check_conversion(n, gates, aps, env, acc, offset=0):
+def check_conversion(n, gates, aps, env, acc, split=False):
+    import signal
     from lightworks.qubit import qiskit_converter
     prog = decorate(n, gates, env)
-    if offset:
-        prog = prog[:0] + prog        # (kept for replay symmetry)
     case = {"n_qubits": n, "gates": gates, "allow_post_selection": aps, "seed": env.seed}
-    qc = build_qc(n, prog)
+    if split:
+        case["registers"] = [1, n - 1]
+    qc = build_qc(n, prog, split)
     acc.tick("executions"); acc.tick("transitions", len(prog))
+    old = signal.signal(signal.SIGALRM, _alarm)
+    signal.alarm(10)                 # a conversion that does not come back is a verdict, not a hung check
     try:
         circ, ps = qiskit_converter(qc, allow_post_selection=aps)
+    except ConversionTimeout:
+        acc.violation("converter_does_not_terminate", case, {"limit_s": 10})
+        return
     except ValueError:
         acc.tick("refused")
         acc.outcome("refused:aps=%s" % aps)
@@ -83,6 +101,9 @@ def check_conversion(n, gates, aps, env, acc, offset=0):
     except Exception as e:  # noqa: BLE001
         acc.violation("converter_crashes", case, {"error": repr(e)})
         return
+    finally:
+        signal.alarm(0)
+        signal.signal(signal.SIGALRM, old)
     if circ.input_modes != 2 * n:
         acc.violation("wrong_visible_mode_count", case, {"input_modes": circ.input_modes})
         return
@@ -162,10 +183,20 @@ def run(tier, seed):
                 for aps in (False, True):
                     jobs.append((3, gates, aps))
 
+    # the same circuits declared over two quantum registers (short sequences)
+    split_jobs = []
+    for n, L in [(2, 2), (3, 2), (4, 1)]:
+        mg = multi_gates(n)
+        for d in range(1, L + 1):
+            for gates in itertools.product(mg, repeat=d):
+                for aps in (False, True):
+                    split_jobs.append((n, gates, aps, True))
+    jobs = [j + (False,) for j in jobs] + split_jobs
+
     def shard_fn(js):
         acc = kernel.Acc()
-        for n, gates, aps in js:
-            check_conversion(n, gates, aps, env, acc)
+        for n, gates, aps, split in js:
+            check_conversion(n, gates, aps, env, acc, split)
         if js:
             acc.sample({"n_qubits": js[0][0], "program": decorate(js[0][0], js[0][1], env),
                         "allow_post_selection": js[0][2]}, limit=1)
@@ -179,7 +210,7 @@ def run(tier, seed):
         "rule": "for n qubits and every sequence of length <= L over ALL ordered qubit tuples of cx, cz, swap, ccx, ccz "
                 "(adjacent or not, either orientation), decorated with a leading and trailing layer rotating through "
                 "all 13 supported single-qubit gates (complex, non-symmetric, generic angles), for both "
-                "allow_post_selection values: either the converter raises ValueError, or for every dual-rail basis "
+                "allow_post_selection values (sequences up to length 2 also with the qubits declared over two registers): either the converter raises ValueError, or for every dual-rail basis "
                 "input and every output satisfying the circuit's heralds and the returned post-selection rules the "
                 "amplitude (RefFock on U_full) is s x Operator(qc) with one s != 0 and nothing accepted lies outside "
                 "the qubit subspace. Plus 8 unsupported gates that must be refused. distinct_nontrivial = converted "
@@ -199,4 +230,5 @@ def replay(w, acc):
     if "gates" not in case:
         check_unsupported(env, acc)
         return
-    check_conversion(case["n_qubits"], tuple(_tup(g) for g in case["gates"]), case["allow_post_selection"], env, acc)
+    check_conversion(case["n_qubits"], tuple(_tup(g) for g in case["gates"]), case["allow_post_selection"], env, acc,
+                     split="registers" in case)
